@@ -528,6 +528,8 @@ def show(t, depth=0):
     if h == "proj":
         return "%s.%d" % (S(t[2]), t[1])
     if h == "variant":
+        if t[1] == "Some" and t[3][0] == "call" and t[3][1].endswith("Iterator::next"):
+            return "<taken record>"
         return "%s?%s.%d" % (S(t[3]), t[1], t[2])
     if h == "format":
         return "format(%r; %s)" % (t[1], ", ".join(S(x) for x in t[2]))
@@ -1217,7 +1219,7 @@ def assigned_in(fv, root):
 
 
 class SymPath:
-    __slots__ = ("conds", "state", "exit", "ret", "effects", "events")
+    __slots__ = ("conds", "state", "exit", "ret", "effects", "events", "view")
 
     def __init__(self):
         self.conds = []     # [(term evaluated in the state at the test, polarity, node)]
@@ -1249,6 +1251,7 @@ def sym_paths(fv, root, limit=60000):
     out = []
     for ev, ex in raw:
         sp = SymPath()
+        sp.view = fv
         st = {}
         vers = {}
 
